@@ -226,7 +226,8 @@ SessFold(op, ts, cl, i, ref, last, curStart, cur, acc) ==
     \* cur: indices in the open session, curStart: step in which it was opened
     IF i > Len(ts) THEN (IF cur = <<>> THEN acc ELSE Append(acc, Child(curStart, cur, 0)))
     ELSE LET t == ts[i] IN
-      IF i > 1 /\ Expired(op, ref, last, t)
+      IF Expired(op, ref, last, t)     \* also the first item: with a zero timeout it is
+                                       \* already "at least 0 after" its own reference
       THEN SessFold(op, ts, cl, i + 1, t, t, i, <<i>>,
                     IF cur = <<>> THEN acc ELSE Append(acc, Child(curStart, cur, i)))
       ELSE IF cl[i]
